@@ -253,10 +253,11 @@ def check_elem(arg, text, etype):
 
 def fmt_elem(arg, text):
     for f in arg.formats:
+        # the C locale: ASCII letters only
         if f == "upper":
-            text = text.upper()
+            text = "".join(ch.upper() if "a" <= ch <= "z" else ch for ch in text)
         elif f == "lower":
-            text = text.lower()
+            text = "".join(ch.lower() if "A" <= ch <= "Z" else ch for ch in text)
     return text
 
 
@@ -268,6 +269,8 @@ def valid(cfg, uses):
     excluded = {}
     required = {}
     group_used = {}          # id(constraint) -> arg
+    abstain = None
+    level = {}
     for u in uses:
         a = u.arg
         if a.deprecated or a.replaced:
@@ -280,8 +283,21 @@ def valid(cfg, uses):
                 prev = group_used.get(ci)
                 if prev is not None and prev is not a:
                     return False, kind
+                if prev is a:
+                    abstain = "repeated-member-of-" + kind
                 group_used[ci] = a
         vm = a.value_mode()
+        if cat_of(a.slot) == "level":
+            cur = level.get(a.slot, init_value(a))
+            if u.elems is None:
+                if not check_elem(a, str(cur + 1), "int"):
+                    return False, "check"
+                level[a.slot] = cur + 1
+            else:
+                try:
+                    level[a.slot] = conv("int", u.elems[0])
+                except ValueError:
+                    return False, "conversion"
         if u.elems is None:
             if vm == "req":
                 return False, "missing-value"
@@ -320,6 +336,8 @@ def valid(cfg, uses):
             return False, "cardinality"
     if required:
         return False, "requires"
+    if abstain:
+        return None, abstain
     for ci, (kind, members, _m) in enumerate(cfg.constraints):
         nused = sum(1 for m in members if used.get(id(m), 0) > 0)
         if kind == "all_of" and 0 < nused < len(members):
@@ -341,9 +359,9 @@ def valid(cfg, uses):
                 return False, "differ"
         if kind == "disjoint":
             a, b = members
-            if used.get(id(a), 0) and used.get(id(b), 0):
-                if set(map(repr, exp[a.slot])) & set(map(repr, exp[b.slot])):
-                    return False, "disjoint"
+            # "no value may exist in both data sets": the data sets are the destination containers
+            if set(map(repr, exp[a.slot])) & set(map(repr, exp[b.slot])):
+                return False, "disjoint"
     return True, ""
 
 
@@ -729,11 +747,11 @@ def scenario_text(sid, tag, cfg, argv, prog="prog"):
 # ---------------------------------------------------------------- execution
 
 class Result:
-    __slots__ = ("sid", "status", "etype", "ewhat", "slots", "out", "err", "words", "crash")
+    __slots__ = ("sid", "status", "etype", "ewhat", "slots", "out", "err", "words", "crash", "addfails")
 
     def __init__(self, sid):
         self.sid, self.status, self.etype, self.ewhat = sid, None, "", ""
-        self.slots, self.out, self.err, self.words, self.crash = {}, "", "", None, None
+        self.slots, self.out, self.err, self.words, self.crash, self.addfails = {}, "", "", None, None, {}
 
 
 def parse_result_line(line):
@@ -751,6 +769,10 @@ def parse_result_line(line):
                 r.out = unhx(tok[2:])
             elif tok.startswith("X="):
                 r.err = unhx(tok[2:])
+            elif tok.startswith("T=") and tok != "T=-":
+                for it in tok[2:].split(","):
+                    sl, _, ex = it.partition(":")
+                    r.addfails[sl] = unhx(ex)
     return r
 
 
